@@ -54,7 +54,8 @@ def generate(check, rng, tier, run_index):
     for k in range(npaths):
         ext = rng.choice(SAVE_EXTS)
         pre = rng.weighted([('absent', 2), ('valid_short', 3), ('valid_long', 4), ('empty', 1), ('junk', 2)])
-        ent = {'name': 'p%d.%s' % (k, ext), 'ext': ext, 'pre': pre, 'pre_frames': 1 if pre == 'valid_short' else rng.randint(3, 6)}
+        stem = rng.choice(['p%d', 'p%d', 'Traj_%d', 'RUN%d', 'my.run-%d'])      # upper case, dots and dashes in names are deliberate
+        ent = {'name': (stem % k) + '.' + ext, 'ext': ext, 'pre': pre, 'pre_frames': 1 if pre == 'valid_short' else rng.randint(3, 6)}
         if ext in RESTART and pre.startswith('valid') and rng.chance(0.6):
             ent['pre_numbered'] = rng.randint(2, 5)      # numbered files name.N from an earlier multi-frame save
         paths.append(ent)
